@@ -35,6 +35,8 @@ def build_case(cid, rng):
     gen_used = []
     byval1 = rng.random() < 0.25
     byval_used = []
+    hr1 = rng.random() < 0.25
+    hr_used = []
     kinds = ["fn", "fn", "mod", "leaf_trait", "inversion", "concrete"] + (["impl_future"] if (is_async and (with_lt or not extra)) else [])
     L, GT = [], []
     aw = ".await" if is_async else ""
@@ -75,6 +77,10 @@ def build_case(cid, rng):
         byval_here = i == 1 and byval1 and kind in ("fn", "mod")
         AMP = "" if byval_here else "&"
         bound_i = bound
+        if i == 1 and hr1 and kind in ("fn", "mod") and not byval_here:
+            # a higher-ranked bound on the dependency of the first link
+            bound_i = (bound[:-1] + " + for<'q> HB<'q>)") if bound.startswith("(") else ("(" + bound + " + for<'q> HB<'q>)")
+            hr_used.append(True)
         if byval_here:
             extra_b = " + ::core::marker::Copy + ::core::marker::Send + ::core::marker::Sync"
             bound_i = (bound[:-1] + extra_b + ")") if bound.startswith("(") else ("(" + bound + extra_b + ")")
@@ -110,7 +116,8 @@ def build_case(cid, rng):
     wrap = (lambda c: "::vrt::block_on(%s)" % c) if is_async else (lambda c: c)
     if gen_used:
         ARG = ", 7u8" + ARG
-    D = ["#[derive(Clone, Copy)] pub struct App;"] + L + GT + ["pub fn run() {",
+    HBDEF = ["pub trait HB<'q> { fn hb(&self) -> &'q str; }", "impl<'q, T> HB<'q> for ::entrait::Impl<T> { fn hb(&self) -> &'q str { \"\" } }"] if hr_used else []
+    D = ["#[derive(Clone, Copy)] pub struct App;"] + HBDEF + L + GT + ["pub fn run() {",
          "    let app = ::entrait::Impl::new(App);",
          "    match ::std::env::var(\"C14_MODE\").ok().as_deref() {",
          "        Some(\"none\") => return,",
@@ -130,7 +137,7 @@ def build_case(cid, rng):
          '    ::vrt::fact("trait_allocs", a1 - a0); ::vrt::fact("direct_allocs", a2 - a1); ::vrt::fact("trait_allocs_again", a3 - a2);',
          '    ::vrt::fact("trait_result", r1); ::vrt::fact("direct_result", r2);',
          "}"]
-    return Case(cid, "\n".join(D) + "\n", meta={"depth": depth, "async": is_async, "links": links, "explicit_lifetime": with_lt, "extra_param": (extra[0] if extra else None), "generic_first_link": bool(gen_used), "by_value_first_link": bool(byval_used), "no_send": no_send,
+    return Case(cid, "\n".join(D) + "\n", meta={"depth": depth, "async": is_async, "links": links, "explicit_lifetime": with_lt, "extra_param": (extra[0] if extra else None), "generic_first_link": bool(gen_used), "by_value_first_link": bool(byval_used), "higher_ranked_bound": bool(hr_used), "no_send": no_send,
                                                 "nontrivial": is_async or depth >= 2})
 
 
